@@ -40,7 +40,7 @@ def bign96KeypairVal (l : Nat) (v : BignVals) (d x y : Nat) : Nat :=
 def chainOkM (S margin : Nat) (xs : List Nat) : Bool :=
   let M := 2 ^ S
   let rec go : Nat → List Nat → Bool
-    | _, [] => true
+    | prev, [] => decide (prev ≤ 32)     -- the loop ran to the end of the array: `if (x[i-1] > 32) BAD`
     | prev, x :: rest =>
       if x > 16 then
         if x ≥ (M - 1) / 5 ∨ prev > 2 * x % M ∨ 5 * x % M ≥ (4 * prev % M + M - margin) % M then false
